@@ -1,5 +1,6 @@
 // C13 harness: LRU cache (collections/lru/cache.go).
-// input    = (cap (op ...))         op = (code args...), see coq/C13/Run.v
+// input    = (cap (op ...) nocb valkind)   op = (code args...), see coq/C13/Run.v; nocb = 1: no callback;
+//            valkind: the Go type the stored values are wrapped in (not seen by the model)
 // observed = ((out log len) ...)    one per operation
 package main
 
@@ -15,9 +16,48 @@ import (
 // stored with nil is present, and Get/Peek must say so)
 const nilValue = -7
 
-func toVal(v int64) interface{} {
+// The stored value is an arbitrary Go value: the integer of the case is wrapped in one of several
+// Go types (chosen per history, or per value in "mixed" histories), among them types with a
+// Close method (handles, connections) and non-comparable ones; whatever the type, Get/Peek
+// must return it and the callback must be told about it.
+type closerPtr struct {
+	n      int64
+	closed int
+}
+
+func (c *closerPtr) Close() error { c.closed++; return nil }
+
+type closerVal struct{ n int64 }
+
+func (c closerVal) Close() error { return nil }
+
+type plainStruct struct {
+	n int64
+	s string
+}
+
+const nValKinds = 7
+
+func toValKind(v int64, kind int) interface{} {
 	if v == nilValue {
 		return nil
+	}
+	if kind == nValKinds { // mixed
+		kind = int(uint64(v) % nValKinds)
+	}
+	switch kind {
+	case 1:
+		return fmt.Sprintf("v%d", v)
+	case 2:
+		return &closerPtr{n: v}
+	case 3:
+		return closerVal{n: v}
+	case 4:
+		return []int64{v} // not comparable
+	case 5:
+		return plainStruct{n: v, s: "x"}
+	case 6:
+		return map[string]int64{"v": v}
 	}
 	return v
 }
@@ -42,6 +82,26 @@ func val(v interface{}) int64 {
 	switch x := v.(type) {
 	case int64:
 		return x
+	case string:
+		var n int64
+		if len(x) > 1 && x[0] == 'v' {
+			fmt.Sscanf(x[1:], "%d", &n)
+			return n
+		}
+		return -997
+	case *closerPtr:
+		return x.n
+	case closerVal:
+		return x.n
+	case []int64:
+		if len(x) == 1 {
+			return x[0]
+		}
+		return -996
+	case plainStruct:
+		return x.n
+	case map[string]int64:
+		return x["v"]
 	case *list.Element:
 		return -999
 	}
@@ -51,10 +111,22 @@ func val(v interface{}) int64 {
 func run(in Sx) Sx {
 	capacity := in.At(0).AsInt()
 	ops := in.At(1)
+	nocb, valKind := false, 0
+	if in.Len() > 2 {
+		nocb = in.At(2).AsInt() != 0
+	}
+	if in.Len() > 3 {
+		valKind = in.At(3).AsInt()
+	}
+	toVal := func(v int64) interface{} { return toValKind(v, valKind) }
 	var log []Sx
-	c := lru.NewCache(capacity, func(k, v interface{}) {
-		log = append(log, Ints(unkey(k), val(v)))
-	})
+	var cb func(k, v interface{})
+	if !nocb {
+		cb = func(k, v interface{}) {
+			log = append(log, Ints(unkey(k), val(v)))
+		}
+	}
+	c := lru.NewCache(capacity, cb)
 	var obs []Sx
 	for i := 0; i < ops.Len(); i++ {
 		op := ops.At(i)
@@ -132,6 +204,26 @@ func gen(a Args, out *Out) {
 			universe = rng.Range(1, 3)
 		}
 		nops := rng.Range(1, maxOps)
+		// one history in six uses a bigger cache (bulk paths, thresholds that depend on the
+		// ratio of entries leaving to entries staying) and is filled first
+		big := rng.Chance(1, 6)
+		if big {
+			capacity = rng.Range(9, 48)
+			universe = rng.Range(capacity, 2*capacity)
+			nops = rng.Range(capacity, capacity+maxOps)
+			out.Count("histories-big-cache")
+		}
+		// the cache is built without a callback in one history out of five; the value type is
+		// int64 in half of the histories and one of the other Go types (or a mix) otherwise
+		nocb := rng.Chance(1, 5)
+		valKind := 0
+		if rng.Bool() {
+			valKind = rng.Range(1, nValKinds)
+		}
+		if nocb {
+			out.Count("histories-without-callback")
+		}
+		out.Count(fmt.Sprintf("value-kind:%d", valKind))
 		// half of the histories draw values from a tiny set, so that re-puts with an unchanged
 		// value (which must still count as use) are frequent
 		valRange := 1000
@@ -173,6 +265,9 @@ func gen(a Args, out *Out) {
 				op = Ints(7)
 			case d < 93:
 				op = Ints(8, int64(rng.Range(1, 9)))
+				if big && rng.Bool() {
+					op = Ints(8, int64(rng.Range(1, capacity+8)))
+				}
 				resizes++
 			case d < 95:
 				op = Ints(9)
@@ -185,10 +280,28 @@ func gen(a Args, out *Out) {
 			out.Count(fmt.Sprintf("op:%d", op.At(0).AsInt()))
 			ops = append(ops, op)
 		}
-		in := List(Int(int64(capacity)), ListOf(ops))
+		if big {
+			// fill first, so that resizes and purges act on a well-filled cache
+			fill := make([]Sx, 0, capacity+len(ops))
+			for k := 0; k < capacity; k++ {
+				fill = append(fill, Ints(0, int64(k), int64(rng.Intn(valRange))))
+			}
+			ops = append(fill, ops...)
+		}
+		nocbI := int64(0)
+		if nocb {
+			nocbI = 1
+		}
+		in := List(Int(int64(capacity)), ListOf(ops), Int(nocbI), Int(int64(valKind)))
 		kind := "random"
+		if big {
+			kind = "big"
+		}
+		if nocb {
+			kind += "-nocb"
+		}
 		if purges > 0 {
-			kind = "with-purge"
+			kind += "-with-purge"
 			out.Count("histories-with-purge")
 		}
 		if resizes > 0 {
